@@ -180,11 +180,39 @@ Not applicable: that the position lies in the first malformed assignment (nom's 
         None => ctx.fail_closed("C17.same", "anchor not found: From<ErrorTree> for ReportData"),
         Some(f) => {
             ctx.func(&f.key);
-            let b = tok(&f.block);
-            for field in ["line", "offset", "column", "context_start_line", "context_start_offset", "src_file"] {
-                ctx.oblige("C17.same", &format!("report-data:{}", field), true);
-                if !b.contains(&format!("{}:input.{}()", field, field)) {
-                    ctx.violate("C17.same", &format!("report-data:{}", field), &f.file, f.line, &format!("ReportData.{} must be the failing Input's {}() unchanged", field, field));
+            // evaluated on a base error: every position field of the report is the failing Input's accessor value, unchanged
+            {
+                use crate::eval::{Env, Evaluator, Val};
+                use std::collections::BTreeMap as Map;
+                let consts = const_resolver(m);
+                let vals: Vec<(&str, Val)> = vec![("line", Val::int(17)), ("column", Val::int(4)), ("offset", Val::int(321)), ("context_start_line", Val::int(12)), ("context_start_offset", Val::int(250)), ("src_file", Val::some(Val::Str("dir/x.asn".into())))];
+                let vals2 = vals.clone();
+                let hook = move |_: &Evaluator, name: &str, a: &[Val]| -> Option<Result<Val, String>> {
+                    if matches!(a.first(), Some(Val::Opaque(s)) if s == "failing-input") {
+                        if let Some((_, v)) = vals2.iter().find(|(n, _)| format!(".{}", n) == name) {
+                            return Some(Ok(v.clone()));
+                        }
+                    }
+                    None
+                };
+                let ev = Evaluator { consts: &consts, call_hook: &hook, inline: None };
+                let param = f.sig.inputs.iter().filter_map(|a| match a { syn::FnArg::Typed(t) => Some(tok(&t.pat)), _ => None }).next().unwrap_or("value".into());
+                let mut base = Map::new();
+                base.insert("input".to_string(), Val::Opaque("failing-input".into()));
+                base.insert("kind".to_string(), Val::Ctor("External".into(), vec![Val::Str("reason".into())], Map::new()));
+                let mut env = Env::new();
+                env.insert(param, Val::Ctor("Base".into(), vec![], base));
+                match ev.eval_fn_body(&f.block, &mut env) {
+                    Ok(Val::Ctor(_, _, fl)) => {
+                        for (field, want) in &vals {
+                            ctx.oblige("C17.same", &format!("report-data:{}", field), true);
+                            if fl.get(*field) != Some(want) {
+                                ctx.violate("C17.same", &format!("report-data:{}", field), &f.file, f.line, &format!("ReportData.{} is {:?} for an Input whose {}() is {}: the report must carry the failing Input's position unchanged", field, fl.get(*field).map(|x| x.show()), field, want.show()));
+                            }
+                        }
+                    }
+                    Ok(o) => ctx.fail_closed("C17.same", &format!("[ReportData::from]: {}", o.show().chars().take(100).collect::<String>())),
+                    Err(e) => ctx.fail_closed("C17.same", &format!("[ReportData::from]: {}", e)),
                 }
             }
         }
